@@ -358,6 +358,10 @@ class Evaluator:
             pass
         elif k == "ref":
             self.bind(pat["p"], val, p)
+        elif k == "struct" and isinstance(val, Obj) and val.name.startswith("struct:"):
+            # `let S{a, b: x, ..} = value_built_by_a_struct_expression`: field by field
+            for member, sp in pat.get("fields", []):
+                self.bind(sp, val.attrs.get(member, Top("field:" + str(member))), p)
         elif k in ("tuple_struct", "struct"):
             for sp in (pat.get("elems") or [x[1] for x in pat.get("fields", [])]):
                 self.bind(sp, Top("struct-destructure"), p)
